@@ -33,16 +33,24 @@
    (3) Life cycle (ServerLife.v, tied to the real Server by the `life`
        correspondence cases of harness/genlife.go on every run): Close,
        Shutdown, second calls, back-off on temporary Accept errors.  Close
-       ends every REGISTERED connection; a connection between Accept's
-       return and its handler's registration is missed by Close (modelled:
-       ServerLifeProofs.close_misses_unregistered; observed on the real
-       server by TestScenarioObserveCloseBeforeRegistration).
+       ends EVERY connection: the registered ones at once, and one between
+       Accept's return and its handler's registration as soon as that
+       handler runs - it finds s.done closed under s.locker and closes the
+       connection instead of registering and greeting it
+       (C20_close_ends_every_connection, for all operation sequences and
+       both orders of Close and the registration; the `life` cases force
+       that window on the real server through the listener's Close, which
+       Server.Close calls while holding s.locker).  Close and Shutdown are
+       atomic steps of the model; the code implements that atomicity (the
+       test of s.done and close(s.done) are done under s.locker), and
+       TestScenarioConcurrentClose checks it on the real server.
+       Both were defects of the original tree (DESIGN F28, F21), repaired.
    RUNTIME ONLY (observed, not proved): Go's scheduler/memory model being
    captured by the interleaving semantics; net.Conn, io.Pipe, channels,
    sync.Mutex/WaitGroup being race free themselves; objects reached THROUGH
    a field (bufio.Reader, lineLimitReader, dataReader) are covered only as
-   far as the field that holds them; two CONCURRENT Close/Shutdown calls
-   (DESIGN F21); the -race scenarios of harness/race_test.go. *)
+   far as the field that holds them; the -race scenarios of
+   harness/race_test.go. *)
 From Coq Require Import List String Bool NArith.
 From Smtp Require Import Lockset LocksetInst Interleave InterleaveProofs ServerLife ServerLifeProofs.
 Import ListNotations.
@@ -141,6 +149,30 @@ Theorem C20_close_once :
               snd (ServerLife.step (run_st s' l) o) = BRet RServerClosed.
 Proof. exact C20_close_once_lemma. Qed.
 Print Assumptions C20_close_once.
+
+(* Close ends every connection, whatever the order of Close and the
+   handlers' registrations (the window between Accept and registration) *)
+Theorem C20_close_ends_every_connection :
+  forall l1 l2,
+  let s := run_st ServerLife.init l1 in
+  done s = false ->
+  let s' := run_st (fst (ServerLife.step s OClose)) l2 in
+  List.length (conns s') = List.length (conns s) /\
+  Forall (fun c => c <> COpen) (conns s') /\
+  (forall k c, nth_error (conns s') k = Some c ->
+     nth_error (conns s) k <> Some CSpawned \/ In (ORegister k) l2 ->
+     is_open c = false) /\
+  ((forall k, nth_error (conns s) k = Some CSpawned -> In (ORegister k) l2) ->
+   open_count s' = 0%nat).
+Proof. exact C20_close_ends_every_connection_lemma. Qed.
+Print Assumptions C20_close_ends_every_connection.
+
+(* after Close or Shutdown no connection is taken into service any more *)
+Theorem C20_no_service_after_stop :
+  forall s o j, reachable s -> done s = true ->
+  nth_error (conns (fst (ServerLife.step s o))) j = Some COpen -> nth_error (conns s) j = Some COpen.
+Proof. exact C20_no_service_after_stop_lemma. Qed.
+Print Assumptions C20_no_service_after_stop.
 
 Theorem C20_shutdown :
   forall s, reachable s -> done s = false ->
